@@ -46,7 +46,8 @@ pub fn catalogue() -> Vec<Entry> {
         BTreeSet<Option<u16>>, BTreeSet<bool>, BTreeSet<[u8; 2]>, BTreeSet<i128>,
         HashSet<u8>, HashSet<u32>, HashSet<String>, HashSet<i16>,
         HS<u8>, HS<u64>, HS<String>, HS<(i8, String)>, HS<Vec<u8>>, HS<Option<bool>>,
-        HSC<u8>, HSC<String>, HSC<i32>,
+        HSC<u8>, HSC<String>, HSC<i32>, HashSet<u128>, HS<i128>, HSC<u128>, HS<u64>, HS<i64>,
+        HashMap<u128, u8>, HM<i128, String>, HMC<u128, u16>, HM<u64, u8>,
         BTreeMap<u8, u8>, BTreeMap<u32, String>, BTreeMap<String, u64>, BTreeMap<i16, Vec<u8>>,
         BTreeMap<String, BTreeMap<u8, bool>>, BTreeMap<(u8, i8), Option<String>>, BTreeMap<u64, ()>,
         HashMap<u8, u8>, HashMap<String, u32>, HashMap<u32, String>,
@@ -88,6 +89,18 @@ pub fn catalogue() -> Vec<Entry> {
             bson::oid::ObjectId, Vec<bson::oid::ObjectId>, Option<bson::oid::ObjectId>, (u8, bson::oid::ObjectId),
         );
     }
+    v
+}
+
+/// collections whose element type is several KiB in memory: `size_of::<T>()` around and above the
+/// 4096-byte budget of the decoder's capacity hint (`cautious`), where `4096 / size_of::<T>()` is 2, 1, 0
+pub fn big_elem_catalogue() -> Vec<Entry> {
+    let mut v: Vec<Entry> = Vec::new();
+    cat!(v;
+        Vec<[u8; 2048]>, Vec<[u8; 2049]>, Vec<[u8; 4096]>, Vec<[u8; 4097]>, Vec<[u64; 513]>, Vec<(u8, [u16; 2500])>,
+        VecDeque<[u8; 4097]>, LinkedList<[u8; 5000]>, Box<[[u8; 4097]]>, BTreeMap<u8, [u8; 4097]>, BTreeSet<[u8; 4100]>,
+        HM<u8, [u32; 1025]>, Option<Vec<[u8; 8192]>>, Vec<Option<[u8; 4096]>>,
+    );
     v
 }
 
